@@ -106,7 +106,7 @@ func evalC09(c *engine.Case) engine.Verdict {
 		v.Failf("setup: %v", err)
 		return v
 	}
-	argsFor := func(w *engine.World, st C09Step) []argmapper.Arg {
+	stepScenario := func(st C09Step) *engine.Scenario {
 		s2 := *sc
 		s2.Inputs = nil
 		drop := map[int]bool{}
@@ -120,7 +120,18 @@ func evalC09(c *engine.Case) engine.Verdict {
 				s2.Inputs = append(s2.Inputs, in)
 			}
 		}
-		a, err := w.Args(&s2)
+		return &s2
+	}
+	// the premise under which outcomes are stable (C05) must hold for the
+	// inputs actually passed in the step: withholding an input can make a
+	// multi-input converter unsatisfiable
+	wellFor := func(st C09Step) bool {
+		s2 := stepScenario(st)
+		return engine.SingleInput(s2) || (!engine.DepCyclic(s2, engine.RPlus) && engine.AllConvsSatisfiable(s2, engine.RMinus))
+	}
+	argsFor := func(w *engine.World, st C09Step) []argmapper.Arg {
+		s2 := stepScenario(st)
+		a, err := w.Args(s2)
 		if err != nil {
 			panic(err)
 		}
@@ -226,7 +237,7 @@ func evalC09(c *engine.Case) engine.Verdict {
 						diverged = true
 					} else {
 						ot := twin.Call(trf, callArgs)
-						if well && !diverged && !hasFailing(sc) && outcomeClass(or) != outcomeClass(ot) {
+						if wellFor(st) && !diverged && !hasFailing(sc) && outcomeClass(or) != outcomeClass(ot) {
 							v.Failf("step %d: redefined call outcome %s, twin %s", si, outcomeClass(or), outcomeClass(ot))
 							return v
 						}
@@ -267,7 +278,15 @@ func evalC09(c *engine.Case) engine.Verdict {
 					uniqueHere = false
 				}
 			}
-			if well && !diverged && !hasFailing(sc) {
+			wellStep := wellFor(st)
+			if !wellStep {
+				// tie-dependent outcomes are legitimate here; the worlds may
+				// execute (and memoize) different converters
+				if executedSet(or.Events) != executedSet(ot.Events) || outcomeClass(or) != outcomeClass(ot) {
+					diverged = true
+				}
+			}
+			if wellStep && !diverged && !hasFailing(sc) {
 				if a, b := outcomeClass(or), outcomeClass(ot); a != b {
 					v.Failf("step %d (%s): outcome %s in the world that saw Redefine, %s in the twin that did not", si, st.Op, a, b)
 					return v
